@@ -3,10 +3,10 @@ PROP = dict(
         libs=["explore", "canon"],
         targets=[
             dict(name="e1", pkg=".", test="TestVerifC04", files=["mc/c04/*.go"]),
-            dict(name="e3", pkg=".", test="TestVerifC04E3", files=["mc/c04/*.go", "mc/c04/e3/*.go"], parts=["e3-receive-lockpoints"],
+            dict(name="e3", pkg=".", test="TestVerifC04E3", files=["mc/c04/*.go", "mc/c04/e3/*.go"], parts=["e3-receive-lockpoints", "e3-send-lockpoints"],
                  libs=["explore", "canon", "sched", "vsync"],
                  rewrite={f: [('"sync"', 'sync "github.com/refraction-networking/uquic/internal/verifmc/vsync"')]
-                          for f in ("receive_stream.go", "internal/flowcontrol/base_flow_controller.go")}),
+                          for f in ("receive_stream.go", "send_stream.go", "internal/flowcontrol/base_flow_controller.go")}),
             dict(name="race", pkg=".", test="TestVerifC04Race", files=["mc/c04/*.go", "mc/c04/race/*.go"], parts=["stream-race-pass"],
                  race=True, shards=4, gomaxprocs=4, env={"GORACE": "halt_on_error=1"}),
         ],
